@@ -33,7 +33,7 @@ HARD_STRINGS = [
 HASH_TWINS = {"-1": "-2", "-2": "-1", "inf": "314159", "314159": "inf", "0": "2305843009213693951",
               "2305843009213693951": "0", "1/2": "1152921504606846976", "1152921504606846976": "1/2"}
 # presentations (UTC offset in minutes) of the instants used as query operands and point times
-PRES = ["", "", "", "@0", "@120", "@-300", "@345", "@-720"]
+PRES = ["", "", "", "@0", "@120", "@-300", "@345", "@-720", "@zi:Europe/London", "@zi:UTC"]
 
 
 def opt_hx(v):
@@ -47,11 +47,12 @@ class Gen:
         self.filter_extra = []     # extra names used only as filters / handle names
         self.hard = hard
         self.wide = False          # numbers with colliding hashes as field values and operands
+        self.tbase = 0             # offset (µs) of the times used after a bulk start, so that inserts stay in order
 
     # -- points ----------------------------------------------------------
 
     def time(self):
-        return str(T0 + self.r.choice(TIME_OFFS)) + self.r.choice(PRES)
+        return str(T0 + self.tbase + self.r.choice(TIME_OFFS)) + self.r.choice(PRES)
 
     def tag_val(self):
         if self.hard and self.r.random() < 0.5:
@@ -87,7 +88,7 @@ class Gen:
 
     def time_leaf(self):
         r = self.r
-        t = f"t:{T0 + r.choice([0, 1, 2, 4, 8])}" + r.choice(PRES)
+        t = f"t:{T0 + r.choice([0, 1, 2, 4, 8]) + (self.tbase if r.random() < 0.7 else r.randrange(self.tbase + 1))}" + r.choice(PRES)
         c = r.random()
         if c < 0.7:
             return ["cmp", r.choice(CMPS), t]
@@ -293,7 +294,7 @@ class Gen:
         pts = [self.point() for _ in range(n)]
         if pts and r.random() < 0.12:
             # some points carry no time: the database stamps them with the (pinned) insertion time
-            now = "now:" + str(T0 + r.choice([0, 2, 4, 9]))
+            now = "now:" + str(T0 + self.tbase + r.choice([0, 2, 4, 9]))
             for p in pts:
                 if r.random() < 0.6:
                     p[1] = now
